@@ -49,6 +49,44 @@ theorem wm_lt_max_forwarded (lat : Int) (hlat : 0 ≤ lat) (pre : List REv) :
       rw [e, ← this]; exact ht
     · exact e
 
+/-- the property as the operator sees it: in the stream of keyed events and watermarks an operator has received from a
+runner — for every stream the runner's event loop produced, every batch size of the key-event and operator batchers,
+at every moment (whole batches only are delivered) — each watermark, **as delivered**, equals the largest event
+timestamp received before it minus (lateness + 1ns); in particular it is below every such timestamp bound and a later
+watermark is never smaller. (A watermark whose value changes after it was stamped breaks this.) -/
+theorem delivered_watermarks_ok (n : Nat) (lat : Int) (evs : List REv) :
+    streamOK lat zeroTime (delivered n (Watermarker.new lat) evs) ∧
+    (0 ≤ lat → ∀ pre v post, delivered n (Watermarker.new lat) evs = pre ++ SEv.wm v :: post →
+      streamOK lat zeroTime pre ∧ ∀ u, SEv.wm u ∈ post → v ≤ u) := by
+  have hok : streamOK lat zeroTime (delivered n (Watermarker.new lat) evs) := by
+    unfold delivered
+    exact streamOK_take lat _ _ _ (sentStream_ok _ (Watermarker.new lat))
+  refine ⟨hok, ?_⟩
+  intro hlat pre v post hsplit
+  rw [hsplit] at hok
+  -- walk over `pre`
+  have key : ∀ (pre : List SEv) (m : Int), streamOK lat m (pre ++ SEv.wm v :: post) →
+      streamOK lat m pre ∧ ∀ u, SEv.wm u ∈ post → v ≤ u := by
+    intro pre
+    induction pre with
+    | nil =>
+      intro m h
+      simp only [List.nil_append, streamOK] at h
+      refine ⟨trivial, ?_⟩
+      intro u hu
+      have := streamOK_wm_bounds lat hlat post m h.2 u hu
+      omega
+    | cons x xs ih =>
+      intro m h
+      cases x with
+      | ev t =>
+        simp only [List.cons_append, streamOK] at h ⊢
+        exact ih _ h
+      | wm w =>
+        simp only [List.cons_append, streamOK] at h ⊢
+        exact ⟨⟨h.1, (ih _ h.2).1⟩, (ih _ h.2).2⟩
+  exact key pre zeroTime hok
+
 /-- after any interleaving of the runners' watermark messages, the registry's composite watermark is the minimum over
 all runners (configured or reporting) of the runner's latest report, a runner that has not reported counting as the epoch -/
 theorem composite_eq_min (ids : List String) (msgs : List (String × Int)) (hne : msgs ≠ []) :
@@ -156,6 +194,12 @@ example : runnerRun (Watermarker.new 5) [.events [10, 30, 20], .tick, .events [4
 example : (reportAll (Ups.init ["a", "b"], zeroTime) [("a", 10)]).2 = 0 ∧
     (reportAll (Ups.init ["a", "b"], zeroTime) [("a", 10), ("b", 6), ("a", 12)]).2 = 6 ∧
     lastOr [("a", 10), ("b", 6), ("a", 12)] "a" = 12 := by decide
+
+/-- batches of 4: one event, a tick, one event, a tick (the other raw events are keyed to nothing): the operator receives
+`10, 9, 100, 99` — the first watermark keeps the value it was stamped with -/
+example : delivered 4 (Watermarker.new 0)
+    [.events [10], .events [], .events [], .events [], .tick, .events [100], .events [], .events [], .events [], .tick] =
+    [.ev 10, .wm 9, .ev 100, .wm 99] := by decide
 
 /-- a report above the previous one cannot lower the composite -/
 example : (Ups.init ["a", "b"]).composite ≤ ((Ups.init ["a", "b"]).report "a" 10).2 := by decide
